@@ -97,12 +97,61 @@ def bool_rewrites(ctx: Ctx, b2i):
     out = []
     A = util.AV(ctx)
 
-    def repl_map(rep, words):
+    def by_representatives(got, m, pat_text, words):
+        """the replacement function's value with the groups of the match made constant, for a match of each word
+        (the groups are those of the pattern itself matched against the word - stdlib `re` on two constants)"""
+        import re
+
+        out_ = {}
+        for w in words:
+            mo = re.search(pat_text, w)
+            if mo is None:
+                return None
+            mapping = {}
+            for g_ in av.find_all(got, "mcall"):
+                if g_[1] == m and g_[2] == "group" and all(a[0] == "c" for a in g_[3]):
+                    try:
+                        val = mo.group(*[a[1] for a in g_[3]])
+                    except (IndexError, error_type):
+                        return None
+                    mapping[g_] = av.C(val) if not isinstance(val, tuple) else ("list", tuple(av.C(x) for x in val))
+            for g_ in av.find_all(got, "sub"):
+                if g_[1] == m and g_[2][0] == "c":
+                    try:
+                        mapping[g_] = av.C(mo[g_[2][1]])
+                    except (IndexError, error_type):
+                        return None
+            t = av.renorm_deep(av.subst(got, mapping))
+            # truthiness of a constant decides a conditional
+            t = av.renorm_deep(_fold_truth(t))
+            if t[0] != "c" or not isinstance(t[1], str):
+                return None
+            out_[w] = t[1]
+        return out_
+
+    import re as _re
+
+    error_type = _re.error
+
+    def _fold_truth(t):
+        if not isinstance(t, tuple) or not t:
+            return t
+        if t[0] == "if" and t[1][0] == "c":
+            return _fold_truth(t[2] if t[1][1] else t[3])
+        if isinstance(t[0], str):
+            return (t[0],) + tuple(_fold_truth(x) if isinstance(x, tuple) else x for x in t[1:])
+        return tuple(_fold_truth(x) if isinstance(x, tuple) else x for x in t)
+
+    def repl_map(rep, words, pat_text=None):
         if rep[0] == "c" and isinstance(rep[1], str):
             return {w: rep[1] for w in words}
         if rep[0] == "fn":
             m = ("sym", "match")
             got = A._apply_closure(rep[1], (m,), [], av.Frame(b2i, b2i.rel, {}, 0, 0))
+            if pat_text is not None and not av.has_unk(got):
+                r_ = by_representatives(got, m, pat_text, words)
+                if r_ is not None:
+                    return r_
             if got[0] == "sub" and got[1][0] == "dict" and all(k[0] == "c" and x[0] == "c" for k, x in got[1][1]):
                 return {k[1]: x[1] for k, x in got[1][1]}
             if got[0] == "if":
@@ -118,11 +167,11 @@ def bool_rewrites(ctx: Ctx, b2i):
         if x[0] == "call" and x[1] == "re.sub" and len(x[2]) >= 3:
             pat, rep = x[2][0], x[2][1]
             ws = regex_word_set(pat[1]) if pat[0] == "c" and isinstance(pat[1], str) else None
-            out.append((av.show(pat), ws, repl_map(rep, ws) if isinstance(ws, set) else None))
+            out.append((av.show(pat), ws, repl_map(rep, ws, pat[1]) if isinstance(ws, set) else None))
         if x[0] == "mcall" and x[2] == "sub" and x[1][0] == "call" and x[1][1] == "re.compile" and x[1][2] and len(x[3]) >= 2:
             pat, rep = x[1][2][0], x[3][0]
             ws = regex_word_set(pat[1]) if pat[0] == "c" and isinstance(pat[1], str) else None
-            out.append((av.show(pat), ws, repl_map(rep, ws) if isinstance(ws, set) else None))
+            out.append((av.show(pat), ws, repl_map(rep, ws, pat[1]) if isinstance(ws, set) else None))
         for y in x:
             rec(y)
 
@@ -274,6 +323,11 @@ def run(ctx: Ctx):
         ctx.check(last == _av.C("double* values"), "R02.d", f.key("out-parameter"), "result is the trailing `double* values`", f"{f.qualname}: the last formal is {_av.show(last) if last else None}, not `double* values`", f.where())
     ctx.rule("R02.e", "the C functions number their slots like the index functions (slot families)", floor=17)
     slot_families(ctx, "R02.e")
+    ctx.rule("R02.h", "the front end the C backend shares with the others builds what the model text defines: operator table, fold direction, precedence ladder, function vocabulary, conditional builders (the rules of R01.a-e)", floor=40)
+    from .c01 import front_end
+
+    front_end(ctx, {k: "R02.h" for k in "abcde"}, declare=False)
+
     ctx.rule("R02.g", "every scheme emitted for C receives the keyword arguments its builder takes (delta, stiff_states)", floor=4)
     from . import common as _c
 
